@@ -264,10 +264,13 @@ Definition ov_ok (st : state) : bool :=
   end.
 
 (* what is guaranteed of a record that leaves the parser *)
-Definition Fin (override : option state) (u : url) : Prop :=
-  wf u /\ (override = Some QuerySt -> u_query u <> None).
+(* the flag w switches the well-formedness part of the invariant off: absence of panics does not need it *)
+Definition wfp (w : bool) (u : url) : Prop := if w then wf u else True.
 
-Definition J (base : option url) (override : option state) (m : mstate) : Prop :=
+Definition Fin (w : bool) (override : option state) (u : url) : Prop :=
+  wfp w u /\ (override = Some QuerySt -> u_query u <> None).
+
+Definition J (w : bool) (base : option url) (override : option state) (m : mstate) : Prop :=
   let st := m_state m in
   let u := m_url m in
   m_eof m = false /\
@@ -275,20 +278,20 @@ Definition J (base : option url) (override : option state) (m : mstate) : Prop :
   match override with
   | None =>
       match st with Relative | RelativeSlash | SpecialRelativeOrAuthority => base <> None | _ => True end /\
-      match st with PathSt => True | _ => wf u end
+      match st with PathSt => True | _ => wfp w u end
   | Some ov =>
-      ov_ok st = true /\ wf u /\
+      ov_ok st = true /\ wfp w u /\
       match st with PathStart | PathSt => u_opaque u = false | _ => True end /\
       (st = QuerySt \/ ov <> QuerySt)
   end.
 
-Definition Post (base : option url) (override : option state) (o : outcome) : Prop :=
+Definition Post (w : bool) (base : option url) (override : option state) (o : outcome) : Prop :=
   match o with
   | Panic => False
-  | Cont m' => (m_eof m' = false -> J base override m') /\ (m_eof m' = true -> Fin override (m_url m'))
-  | RetUrl u => Fin override u
-  | RetErr u _ => is_some override = true -> Fin override u
-  | RetNilNil u => is_some override = true /\ Fin override u
+  | Cont m' => (m_eof m' = false -> J w base override m') /\ (m_eof m' = true -> Fin w override (m_url m'))
+  | RetUrl u => Fin w override u
+  | RetErr u _ => is_some override = true -> Fin w override u
+  | RetNilNil u => is_some override = true /\ Fin w override u
   end.
 
 Lemma replaceLast_path {X} (a b d : bool) (p : list X) :
@@ -322,25 +325,25 @@ Section Step.
 
   Notation stepf := (step idna_raw c inp).
 
-  Lemma P_mherr base override u t f k :
-    (is_some override = true -> Fin override u) ->
-    (forall u', u_path u' = u_path u -> u_opaque u' = u_opaque u -> u_query u' = u_query u -> Post base override (k u')) ->
-    Post base override (mherr c u t f k).
+  Lemma P_mherr w base override u t f k :
+    (is_some override = true -> Fin w override u) ->
+    (forall u', u_path u' = u_path u -> u_opaque u' = u_opaque u -> u_query u' = u_query u -> Post w base override (k u')) ->
+    Post w base override (mherr c u t f k).
   Proof.
     intros Hfin Hk. unfold mherr. pose proof (sh_handleError c u t f) as Hs. apply sh_inv in Hs.
     destruct (handleError c u t f) as [u' [e|]]; cbn [fst] in Hs; destruct Hs as (Hp & Ho & Hq).
-    - cbn. intros Hov. destruct (Hfin Hov) as [Hw Hqq]. unfold Fin, wf. rewrite Hp, Ho, Hq. auto.
+    - cbn. intros Hov. destruct (Hfin Hov) as [Hw Hqq]. destruct w; unfold Fin, wfp, wf in *; rewrite ?Hp, ?Ho, ?Hq; auto.
     - apply Hk; assumption.
   Qed.
 
-  Lemma P_mherr_true base override u t k :
-    (is_some override = true -> Fin override u) ->
-    Post base override (mherr c u t true k).
+  Lemma P_mherr_true w base override u t k :
+    (is_some override = true -> Fin w override u) ->
+    Post w base override (mherr c u t true k).
   Proof.
     intros Hfin. unfold mherr. pose proof (sh_handleError c u t true) as Hs. apply sh_inv in Hs.
     pose proof (handleError_true c u t) as Ht.
     destruct (handleError c u t true) as [u' [e|]]; cbn [fst snd] in *; destruct Hs as (Hp & Ho & Hq).
-    - cbn. intros Hov. destruct (Hfin Hov) as [Hw Hqq]. unfold Fin, wf. rewrite Hp, Ho, Hq. auto.
+    - cbn. intros Hov. destruct (Hfin Hov) as [Hw Hqq]. destruct w; unfold Fin, wfp, wf in *; rewrite ?Hp, ?Ho, ?Hq; auto.
     - congruence.
   Qed.
 
@@ -365,19 +368,19 @@ Section Step.
     repeat first
       [ progress cbv beta
       | match goal with
-        | |- Post _ _ (mherr _ _ _ true _) => apply P_mherr_true
-        | |- Post _ _ (mherr _ _ _ _ _) => apply P_mherr; [ | intros ?u' ?Hp ?Ho ?Hq ]
-        | |- Post _ _ (match parseHost ?a ?b ?u ?d ?e with _ => _ end) =>
+        | |- Post _ _ _ (mherr _ _ _ true _) => apply P_mherr_true
+        | |- Post _ _ _ (mherr _ _ _ _ _) => apply P_mherr; [ | intros ?u' ?Hp ?Ho ?Hq ]
+        | |- Post _ _ _ (match parseHost ?a ?b ?u ?d ?e with _ => _ end) =>
             let E := fresh "Eph" in
             destruct (parseHost a b u d e) as [?u' ?h|?u' ?e'] eqn:E;
             [apply parseHost_Ok in E | apply parseHost_Er in E]; destruct E as (?Hp & ?Ho & ?Hq)
-        | |- Post _ _ ((if ?b then _ else _) _) => destruct b eqn:?
-        | |- Post _ _ (if ?b then _ else _) => destruct b eqn:?
-        | |- Post _ _ (match ?x with _ => _ end) => destruct x eqn:?
+        | |- Post _ _ _ ((if ?b then _ else _) _) => destruct b eqn:?
+        | |- Post _ _ _ (if ?b then _ else _) => destruct b eqn:?
+        | |- Post _ _ _ (match ?x with _ => _ end) => destruct x eqn:?
         end ].
 
   Ltac norm :=
-    unfold Post, J, Fin, wf, mk, addSegment, copy_base_auth in *;
+    unfold Post, J, Fin, wfp, wf, mk, addSegment, copy_base_auth in *;
     cbn [m_state m_url m_eof is_some ov_ok u_path u_opaque u_query
          set_input set_scheme set_username set_password set_host set_port set_path set_query set_fragment set_verrs set_sp] in *;
     rewrite ?path_cleanDefaultPort, ?opaque_cleanDefaultPort, ?query_cleanDefaultPort in *;
@@ -399,15 +402,16 @@ Section Step.
     try solve [eapply replace_last_nonnil; eassumption];
     try solve [exfalso; unfold rune_error in *; lia].
 
-  Ltac pstart m Hbase Hst HJ :=
+  Ltac pstart w m Hbase Hst HJ :=
     destruct m as [st p e buf aF brF pwF u]; cbn [m_state] in Hst; subst st;
     unfold J in HJ; cbn [m_state m_url m_eof] in HJ; cbv zeta in HJ;
+    destruct w; unfold wfp in HJ, Hbase |- *;
     destruct HJ as (He & Hq & HJ); subst e;
     match goal with
-    | |- Post ?base _ _ => destruct base as [b|]; [ pose proof (Hbase b eq_refl) as Hwb | ]; clear Hbase
+    | |- Post _ ?base _ _ => destruct base as [b|]; [ pose proof (Hbase b eq_refl) as Hwb | ]; clear Hbase
     end;
     match goal with
-    | |- Post _ ?override _ =>
+    | |- Post _ _ ?override _ =>
         destruct override as [ov|];
         [ destruct HJ as (Hok & Hw & Hop & Hov); cbn [ov_ok] in Hok; try discriminate Hok;
           destruct Hov as [Hov|Hov]; try discriminate Hov
@@ -421,67 +425,490 @@ Section Step.
     rewrite ?orb_false_r, ?andb_false_r, ?orb_true_r, ?andb_true_r;
     cbn [negb andb orb].
 
-  Lemma P_SchemeStart base override m : (forall b, base = Some b -> wf b) ->
-    m_state m = SchemeStart -> J base override m -> Post base override (stepf base override m).
-  Proof. intros Hbase Hst HJ. pstart m Hbase Hst HJ; pwalk; leaf. Qed.
-  Lemma P_Scheme base override m : (forall b, base = Some b -> wf b) ->
-    m_state m = Scheme -> J base override m -> Post base override (stepf base override m).
-  Proof. intros Hbase Hst HJ. pstart m Hbase Hst HJ; pwalk; leaf. Qed.
-  Lemma P_NoScheme base override m : (forall b, base = Some b -> wf b) ->
-    m_state m = NoScheme -> J base override m -> Post base override (stepf base override m).
-  Proof. intros Hbase Hst HJ. pstart m Hbase Hst HJ; pwalk; leaf. Qed.
-  Lemma P_OpaquePath base override m : (forall b, base = Some b -> wf b) ->
-    m_state m = OpaquePath -> J base override m -> Post base override (stepf base override m).
-  Proof. intros Hbase Hst HJ. pstart m Hbase Hst HJ; pwalk; leaf. Qed.
-  Lemma P_SpecialRelativeOrAuthority base override m : (forall b, base = Some b -> wf b) ->
-    m_state m = SpecialRelativeOrAuthority -> J base override m -> Post base override (stepf base override m).
-  Proof. intros Hbase Hst HJ. pstart m Hbase Hst HJ; pwalk; leaf. Qed.
-  Lemma P_SpecialAuthoritySlashes base override m : (forall b, base = Some b -> wf b) ->
-    m_state m = SpecialAuthoritySlashes -> J base override m -> Post base override (stepf base override m).
-  Proof. intros Hbase Hst HJ. pstart m Hbase Hst HJ; pwalk; leaf. Qed.
-  Lemma P_SpecialAuthorityIgnoreSlashes base override m : (forall b, base = Some b -> wf b) ->
-    m_state m = SpecialAuthorityIgnoreSlashes -> J base override m -> Post base override (stepf base override m).
-  Proof. intros Hbase Hst HJ. pstart m Hbase Hst HJ; pwalk; leaf. Qed.
-  Lemma P_PathOrAuthority base override m : (forall b, base = Some b -> wf b) ->
-    m_state m = PathOrAuthority -> J base override m -> Post base override (stepf base override m).
-  Proof. intros Hbase Hst HJ. pstart m Hbase Hst HJ; pwalk; leaf. Qed.
-  Lemma P_Authority base override m : (forall b, base = Some b -> wf b) ->
-    m_state m = Authority -> J base override m -> Post base override (stepf base override m).
-  Proof. intros Hbase Hst HJ. pstart m Hbase Hst HJ; pwalk; leaf. Qed.
-  Lemma P_HostSt base override m : (forall b, base = Some b -> wf b) ->
-    m_state m = HostSt -> J base override m -> Post base override (stepf base override m).
-  Proof. intros Hbase Hst HJ. pstart m Hbase Hst HJ; pwalk; leaf. Qed.
-  Lemma P_HostnameSt base override m : (forall b, base = Some b -> wf b) ->
-    m_state m = HostnameSt -> J base override m -> Post base override (stepf base override m).
-  Proof. intros Hbase Hst HJ. pstart m Hbase Hst HJ; pwalk; leaf. Qed.
-  Lemma P_File base override m : (forall b, base = Some b -> wf b) ->
-    m_state m = File -> J base override m -> Post base override (stepf base override m).
-  Proof. intros Hbase Hst HJ. pstart m Hbase Hst HJ; pwalk; leaf. Qed.
-  Lemma P_FileHost base override m : (forall b, base = Some b -> wf b) ->
-    m_state m = FileHost -> J base override m -> Post base override (stepf base override m).
-  Proof. intros Hbase Hst HJ. pstart m Hbase Hst HJ; pwalk; leaf. Qed.
-  Lemma P_FileSlash base override m : (forall b, base = Some b -> wf b) ->
-    m_state m = FileSlash -> J base override m -> Post base override (stepf base override m).
-  Proof. intros Hbase Hst HJ. pstart m Hbase Hst HJ; pwalk; leaf. Qed.
-  Lemma P_PortSt base override m : (forall b, base = Some b -> wf b) ->
-    m_state m = PortSt -> J base override m -> Post base override (stepf base override m).
-  Proof. intros Hbase Hst HJ. pstart m Hbase Hst HJ; pwalk; leaf. Qed.
-  Lemma P_PathSt base override m : (forall b, base = Some b -> wf b) ->
-    m_state m = PathSt -> J base override m -> Post base override (stepf base override m).
-  Proof. intros Hbase Hst HJ. pstart m Hbase Hst HJ; pwalk; leaf. Qed.
-  Lemma P_PathStart base override m : (forall b, base = Some b -> wf b) ->
-    m_state m = PathStart -> J base override m -> Post base override (stepf base override m).
-  Proof. intros Hbase Hst HJ. pstart m Hbase Hst HJ; pwalk; leaf. Qed.
-  Lemma P_QuerySt base override m : (forall b, base = Some b -> wf b) ->
-    m_state m = QuerySt -> J base override m -> Post base override (stepf base override m).
-  Proof. intros Hbase Hst HJ. pstart m Hbase Hst HJ; pwalk; leaf. Qed.
-  Lemma P_FragmentSt base override m : (forall b, base = Some b -> wf b) ->
-    m_state m = FragmentSt -> J base override m -> Post base override (stepf base override m).
-  Proof. intros Hbase Hst HJ. pstart m Hbase Hst HJ; pwalk; leaf. Qed.
-  Lemma P_Relative base override m : (forall b, base = Some b -> wf b) ->
-    m_state m = Relative -> J base override m -> Post base override (stepf base override m).
-  Proof. intros Hbase Hst HJ. pstart m Hbase Hst HJ; pwalk; leaf. Qed.
-  Lemma P_RelativeSlash base override m : (forall b, base = Some b -> wf b) ->
-    m_state m = RelativeSlash -> J base override m -> Post base override (stepf base override m).
-  Proof. intros Hbase Hst HJ. pstart m Hbase Hst HJ; pwalk; leaf. Qed.
+  Lemma P_SchemeStart w base override m : (forall b, base = Some b -> wfp w b) ->
+    m_state m = SchemeStart -> J w base override m -> Post w base override (stepf base override m).
+  Proof. intros Hbase Hst HJ. pstart w m Hbase Hst HJ; pwalk; leaf. Qed.
+  Lemma P_Scheme w base override m : (forall b, base = Some b -> wfp w b) ->
+    m_state m = Scheme -> J w base override m -> Post w base override (stepf base override m).
+  Proof. intros Hbase Hst HJ. pstart w m Hbase Hst HJ; pwalk; leaf. Qed.
+  Lemma P_NoScheme w base override m : (forall b, base = Some b -> wfp w b) ->
+    m_state m = NoScheme -> J w base override m -> Post w base override (stepf base override m).
+  Proof. intros Hbase Hst HJ. pstart w m Hbase Hst HJ; pwalk; leaf. Qed.
+  Lemma P_OpaquePath w base override m : (forall b, base = Some b -> wfp w b) ->
+    m_state m = OpaquePath -> J w base override m -> Post w base override (stepf base override m).
+  Proof. intros Hbase Hst HJ. pstart w m Hbase Hst HJ; pwalk; leaf. Qed.
+  Lemma P_SpecialRelativeOrAuthority w base override m : (forall b, base = Some b -> wfp w b) ->
+    m_state m = SpecialRelativeOrAuthority -> J w base override m -> Post w base override (stepf base override m).
+  Proof. intros Hbase Hst HJ. pstart w m Hbase Hst HJ; pwalk; leaf. Qed.
+  Lemma P_SpecialAuthoritySlashes w base override m : (forall b, base = Some b -> wfp w b) ->
+    m_state m = SpecialAuthoritySlashes -> J w base override m -> Post w base override (stepf base override m).
+  Proof. intros Hbase Hst HJ. pstart w m Hbase Hst HJ; pwalk; leaf. Qed.
+  Lemma P_SpecialAuthorityIgnoreSlashes w base override m : (forall b, base = Some b -> wfp w b) ->
+    m_state m = SpecialAuthorityIgnoreSlashes -> J w base override m -> Post w base override (stepf base override m).
+  Proof. intros Hbase Hst HJ. pstart w m Hbase Hst HJ; pwalk; leaf. Qed.
+  Lemma P_PathOrAuthority w base override m : (forall b, base = Some b -> wfp w b) ->
+    m_state m = PathOrAuthority -> J w base override m -> Post w base override (stepf base override m).
+  Proof. intros Hbase Hst HJ. pstart w m Hbase Hst HJ; pwalk; leaf. Qed.
+  Lemma P_Authority w base override m : (forall b, base = Some b -> wfp w b) ->
+    m_state m = Authority -> J w base override m -> Post w base override (stepf base override m).
+  Proof. intros Hbase Hst HJ. pstart w m Hbase Hst HJ; pwalk; leaf. Qed.
+  Lemma P_HostSt w base override m : (forall b, base = Some b -> wfp w b) ->
+    m_state m = HostSt -> J w base override m -> Post w base override (stepf base override m).
+  Proof. intros Hbase Hst HJ. pstart w m Hbase Hst HJ; pwalk; leaf. Qed.
+  Lemma P_HostnameSt w base override m : (forall b, base = Some b -> wfp w b) ->
+    m_state m = HostnameSt -> J w base override m -> Post w base override (stepf base override m).
+  Proof. intros Hbase Hst HJ. pstart w m Hbase Hst HJ; pwalk; leaf. Qed.
+  Lemma P_File w base override m : (forall b, base = Some b -> wfp w b) ->
+    m_state m = File -> J w base override m -> Post w base override (stepf base override m).
+  Proof. intros Hbase Hst HJ. pstart w m Hbase Hst HJ; pwalk; leaf. Qed.
+  Lemma P_FileHost w base override m : (forall b, base = Some b -> wfp w b) ->
+    m_state m = FileHost -> J w base override m -> Post w base override (stepf base override m).
+  Proof. intros Hbase Hst HJ. pstart w m Hbase Hst HJ; pwalk; leaf. Qed.
+  Lemma P_FileSlash w base override m : (forall b, base = Some b -> wfp w b) ->
+    m_state m = FileSlash -> J w base override m -> Post w base override (stepf base override m).
+  Proof. intros Hbase Hst HJ. pstart w m Hbase Hst HJ; pwalk; leaf. Qed.
+  Lemma P_PortSt w base override m : (forall b, base = Some b -> wfp w b) ->
+    m_state m = PortSt -> J w base override m -> Post w base override (stepf base override m).
+  Proof. intros Hbase Hst HJ. pstart w m Hbase Hst HJ; pwalk; leaf. Qed.
+  Lemma P_PathSt w base override m : (forall b, base = Some b -> wfp w b) ->
+    m_state m = PathSt -> J w base override m -> Post w base override (stepf base override m).
+  Proof. intros Hbase Hst HJ. pstart w m Hbase Hst HJ; pwalk; leaf. Qed.
+  Lemma P_PathStart w base override m : (forall b, base = Some b -> wfp w b) ->
+    m_state m = PathStart -> J w base override m -> Post w base override (stepf base override m).
+  Proof. intros Hbase Hst HJ. pstart w m Hbase Hst HJ; pwalk; leaf. Qed.
+  Lemma P_QuerySt w base override m : (forall b, base = Some b -> wfp w b) ->
+    m_state m = QuerySt -> J w base override m -> Post w base override (stepf base override m).
+  Proof. intros Hbase Hst HJ. pstart w m Hbase Hst HJ; pwalk; leaf. Qed.
+  Lemma P_FragmentSt w base override m : (forall b, base = Some b -> wfp w b) ->
+    m_state m = FragmentSt -> J w base override m -> Post w base override (stepf base override m).
+  Proof. intros Hbase Hst HJ. pstart w m Hbase Hst HJ; pwalk; leaf. Qed.
+  Lemma P_Relative w base override m : (forall b, base = Some b -> wfp w b) ->
+    m_state m = Relative -> J w base override m -> Post w base override (stepf base override m).
+  Proof. intros Hbase Hst HJ. pstart w m Hbase Hst HJ; pwalk; leaf. Qed.
+  Lemma P_RelativeSlash w base override m : (forall b, base = Some b -> wfp w b) ->
+    m_state m = RelativeSlash -> J w base override m -> Post w base override (stepf base override m).
+  Proof. intros Hbase Hst HJ. pstart w m Hbase Hst HJ; pwalk; leaf. Qed.
+
+  (* one loop iteration from a state satisfying the invariant does not panic and re-establishes it *)
+  Lemma step_Post w base override m : (forall b, base = Some b -> wfp w b) ->
+    J w base override m -> Post w base override (stepf base override m).
+  Proof.
+    intros Hbase HJ. destruct (m_state m) eqn:E;
+      eauto using P_SchemeStart, P_Scheme, P_NoScheme, P_OpaquePath, P_SpecialRelativeOrAuthority,
+        P_SpecialAuthoritySlashes, P_SpecialAuthorityIgnoreSlashes, P_PathOrAuthority, P_Authority,
+        P_HostSt, P_HostnameSt, P_File, P_FileHost, P_FileSlash, P_PortSt, P_PathSt, P_PathStart,
+        P_QuerySt, P_FragmentSt, P_Relative, P_RelativeSlash.
+  Qed.
+
+  Definition RPost (w : bool) (override : option state) (r : result) : Prop :=
+    match r with
+    | RPanic => False
+    | ROutOfFuel => True
+    | RUrl u => Fin w override u
+    | RErr u _ => is_some override = true -> Fin w override u
+    | RNilNil u => is_some override = true /\ Fin w override u
+    end.
+
+  Lemma run_Post w base override : (forall b, base = Some b -> wfp w b) ->
+    forall fuel m, J w base override m -> RPost w override (run idna_raw c inp base override fuel m).
+  Proof.
+    intros Hbase. induction fuel as [|f IH]; intros m HJ; [exact I|].
+    cbn [run]. pose proof (step_Post w base override m Hbase HJ) as HP.
+    destruct (stepf base override m) as [m'|u'|u' e'|u'|]; cbn [Post] in HP; try exact HP.
+    destruct HP as [H1 H2]. destruct (m_eof m') eqn:Ee.
+    - cbn. apply H2. reflexivity.
+    - apply IH. apply H1. reflexivity.
+  Qed.
 End Step.
+
+(* ------------------------------------------------------------------------------------------ *)
+(* 3. BasicParser                                                                              *)
+(* ------------------------------------------------------------------------------------------ *)
+
+Definition start_state (override : option state) : state :=
+  match override with Some s => s | None => SchemeStart end.
+
+(* what BasicParser needs of the record it starts from (the state overrides are those of the setters) *)
+Definition init_ok (w : bool) (override : option state) (u : url) : Prop :=
+  match override with
+  | None => wfp w u
+  | Some ov =>
+      ov_ok ov = true /\ wfp w u /\
+      match ov with PathStart | PathSt => u_opaque u = false | _ => True end /\
+      match ov with QuerySt => u_query u <> None | _ => True end
+  end.
+
+Lemma wfp_sh w u u' : sh u' = sh u -> wfp w u -> wfp w u'.
+Proof.
+  intros H. apply sh_inv in H. destruct H as (Hp & Ho & Hq).
+  destruct w; unfold wfp, wf; [rewrite Hp, Ho|]; auto.
+Qed.
+
+Lemma init_J w base override u u' : sh u' = sh u -> init_ok w override u ->
+  J w base override (mk (start_state override) (-1) false [] false false false u').
+Proof.
+  intros Hs Hi. pose proof (wfp_sh w u u' Hs) as Hwf. apply sh_inv in Hs. destruct Hs as (Hp & Ho & Hq).
+  unfold J, init_ok, mk in *. cbn [m_state m_url m_eof].
+  destruct override as [ov|]; cbn [start_state].
+  - destruct Hi as (Hok & Hw & Hop & Hqq).
+    destruct ov; cbn [ov_ok] in Hok; try discriminate Hok; rewrite ?Ho, ?Hq;
+      repeat split; auto; try (left; reflexivity); try (right; discriminate).
+  - repeat split; auto.
+Qed.
+
+Lemma init_Fin w override u u' : sh u' = sh u -> init_ok w override u ->
+  is_some override = true -> Fin w override u'.
+Proof.
+  intros Hs Hi Hov. pose proof (wfp_sh w u u' Hs) as Hwf. apply sh_inv in Hs. destruct Hs as (Hp & Ho & Hq).
+  destruct override as [ov|]; [|discriminate Hov].
+  destruct Hi as (Hok & Hw & Hop & Hqq). split; [auto|].
+  intros E. injection E as ->. rewrite Hq. exact Hqq.
+Qed.
+
+Section Basic.
+  Variable idna_raw : str -> str * bool.
+  Variable c : cfg.
+
+  (* the body of BasicParser once the record to fill is known *)
+  Definition bp_start (baseUrl : option url) (override : option state) (u : url) : result :=
+    let '(i, changed) := remove_tabnl (u_input u) in
+    let k (u : url) : result :=
+      let inp := decode (u_input u) in
+      run idna_raw c inp (option_map clone baseUrl) override (fuel_of (length inp))
+          (mk (start_state override) (-1)%Z false [] false false false u) in
+    if changed then
+      match handleError c u InvalidURLUnit false with
+      | (u', Some e) => RErr u' e
+      | (u', None) => k (set_input u' i)
+      end
+    else k u.
+
+  Lemma BasicParser_eq urlOrRef baseUrl u0 override :
+    BasicParser idna_raw c urlOrRef baseUrl u0 override =
+    match u0 with
+    | Some u => bp_start baseUrl override (set_input u urlOrRef)
+    | None =>
+        let u := empty_url urlOrRef in
+        let '(i, changed) := trim_c0space urlOrRef in
+        if changed then
+          match handleError c u InvalidURLUnit false with
+          | (u', Some e) => RErr u' e
+          | (u', None) => bp_start baseUrl override (set_input u' i)
+          end
+        else bp_start baseUrl override u
+    end.
+  Proof. reflexivity. Qed.
+
+  Lemma bp_start_Post w baseUrl override u0 u :
+    (forall b, baseUrl = Some b -> wfp w b) -> init_ok w override u0 -> sh u = sh u0 ->
+    RPost w override (bp_start baseUrl override u) /\ bp_start baseUrl override u <> ROutOfFuel.
+  Proof.
+    intros Hbase Hi Hs. unfold bp_start.
+    assert (Hbase' : forall b, option_map clone baseUrl = Some b -> wfp w b).
+    { intros b Hb. destruct baseUrl as [b0|]; [|discriminate Hb]. injection Hb as <-.
+      apply (wfp_sh w b0); [reflexivity | apply Hbase; reflexivity]. }
+    assert (Hk : forall u1, sh u1 = sh u0 ->
+      RPost w override (run idna_raw c (decode (u_input u1)) (option_map clone baseUrl) override
+        (fuel_of (length (decode (u_input u1)))) (mk (start_state override) (-1)%Z false [] false false false u1)) /\
+      run idna_raw c (decode (u_input u1)) (option_map clone baseUrl) override
+        (fuel_of (length (decode (u_input u1)))) (mk (start_state override) (-1)%Z false [] false false false u1) <> ROutOfFuel).
+    { intros u1 Hu1. split.
+      - apply run_Post; [exact Hbase'|]. apply (init_J w _ override u0); assumption.
+      - apply run_never_out_of_fuel. }
+    destruct (remove_tabnl (u_input u)) as [i changed]. cbv zeta.
+    destruct changed; [|apply Hk; assumption].
+    pose proof (sh_handleError c u InvalidURLUnit false) as Hh.
+    destruct (handleError c u InvalidURLUnit false) as [u' [e|]]; cbn [fst] in Hh.
+    - split; [|discriminate]. cbn. intros Hov. apply (init_Fin w override u0); [congruence | assumption | assumption].
+    - apply Hk. change (sh (set_input u' i)) with (sh u'). congruence.
+  Qed.
+
+  Theorem BP_Post w urlOrRef baseUrl u0 override :
+    (forall b, baseUrl = Some b -> wfp w b) ->
+    init_ok w override (match u0 with Some u => u | None => empty_url urlOrRef end) ->
+    RPost w override (BasicParser idna_raw c urlOrRef baseUrl u0 override) /\
+    BasicParser idna_raw c urlOrRef baseUrl u0 override <> ROutOfFuel.
+  Proof.
+    intros Hbase Hi. rewrite BasicParser_eq. destruct u0 as [u|].
+    - apply (bp_start_Post w baseUrl override u); auto.
+    - cbv zeta. destruct (trim_c0space urlOrRef) as [i changed].
+      destruct changed; [|apply (bp_start_Post w baseUrl override (empty_url urlOrRef)); auto].
+      pose proof (sh_handleError c (empty_url urlOrRef) InvalidURLUnit false) as Hh.
+      destruct (handleError c (empty_url urlOrRef) InvalidURLUnit false) as [u' [e|]]; cbn [fst] in Hh.
+      + split; [|discriminate]. cbn. intros Hov.
+        apply (init_Fin w override (empty_url urlOrRef)); assumption.
+      + apply (bp_start_Post w baseUrl override (empty_url urlOrRef)); auto.
+  Qed.
+
+  (* termination of BasicParser itself, for all arguments (no condition on the records or the override) *)
+  Theorem BasicParser_never_out_of_fuel urlOrRef baseUrl u0 override :
+    BasicParser idna_raw c urlOrRef baseUrl u0 override <> ROutOfFuel.
+  Proof.
+    rewrite BasicParser_eq.
+    assert (H : forall u, bp_start baseUrl override u <> ROutOfFuel).
+    { intros u. unfold bp_start. destruct (remove_tabnl (u_input u)) as [i ch]. cbv zeta.
+      destruct ch; [|apply run_never_out_of_fuel].
+      destruct (handleError c u InvalidURLUnit false) as [u' [e|]]; [discriminate | apply run_never_out_of_fuel]. }
+    destruct u0 as [u|]; [apply H|]. cbv zeta.
+    destruct (trim_c0space urlOrRef) as [i ch]. destruct ch; [|apply H].
+    destruct (handleError c (empty_url urlOrRef) InvalidURLUnit false) as [u' [e|]]; [discriminate | apply H].
+  Qed.
+End Basic.
+
+(* ------------------------------------------------------------------------------------------ *)
+(* 4. The public API                                                                           *)
+(* ------------------------------------------------------------------------------------------ *)
+
+Section ApiTotal.
+  Variable idna_raw : str -> str * bool.
+  Variable c : cfg.
+
+  Notation BP := (BasicParser idna_raw c).
+  Notation Parse := (Parse idna_raw c).
+  Notation UrlParse := (UrlParse idna_raw c).
+  Notation ParseRef := (ParseRef idna_raw c).
+
+  Lemma wf_empty i : wf (empty_url i).
+  Proof. unfold wf. cbn. discriminate. Qed.
+
+  (* a parse call without state override: a URL or an error, whatever the base *)
+  Lemma BP_parse_total i base :
+    match BP i base None None with
+    | RUrl _ | RErr _ _ => True
+    | _ => False
+    end.
+  Proof.
+    destruct (BP_Post idna_raw c false i base None None) as [HP HF].
+    - intros; exact I.
+    - exact I.
+    - destruct (BP i base None None); cbn in HP; try exact I;
+        [ destruct HP as [H _]; discriminate H | contradiction | congruence ].
+  Qed.
+
+  Lemma BP_parse_wf i base u :
+    (forall b, base = Some b -> wf b) -> BP i base None None = RUrl u -> wf u.
+  Proof.
+    intros Hb E. destruct (BP_Post idna_raw c true i base None None) as [HP HF].
+    - exact Hb.
+    - apply wf_empty.
+    - rewrite E in HP. cbn in HP. apply HP.
+  Qed.
+
+  (* P1 *)
+  Theorem Parse_total : forall i, Parse i <> PPanic /\ Parse i <> PFuel /\ Parse i <> PNilNil.
+  Proof.
+    intros i. unfold Api.Parse. pose proof (BP_parse_total i None) as H.
+    destruct (BP i None None None); cbn [to_pres]; try contradiction; repeat split; discriminate.
+  Qed.
+
+  (* P2: totality holds for every base record, well formed or not *)
+  Theorem UrlParse_total : forall b ref,
+    UrlParse b ref <> PPanic /\ UrlParse b ref <> PFuel /\ UrlParse b ref <> PNilNil.
+  Proof.
+    intros b ref. unfold Api.UrlParse. pose proof (BP_parse_total ref (Some b)) as H.
+    destruct (BP ref (Some b) None None); cbn [to_pres]; try contradiction; repeat split; discriminate.
+  Qed.
+
+  Theorem ParseRef_total : forall rawUrl ref,
+    ParseRef rawUrl ref <> PPanic /\ ParseRef rawUrl ref <> PFuel /\ ParseRef rawUrl ref <> PNilNil.
+  Proof.
+    intros rawUrl ref. unfold Api.ParseRef. destruct rawUrl as [|x r]; [apply Parse_total|].
+    pose proof (Parse_total (x :: r)) as H.
+    destruct (Api.Parse idna_raw c (x :: r)) as [b|e| | |]; try exact H.
+    apply UrlParse_total.
+  Qed.
+
+  (* P3 *)
+  Theorem Parse_wf : forall i u, Parse i = PUrl u -> wf u.
+  Proof.
+    intros i u. unfold Api.Parse. destruct (BP i None None None) as [u'| | | |] eqn:E; cbn [to_pres]; try discriminate.
+    intros H. injection H as <-. apply (BP_parse_wf i None); [discriminate | exact E].
+  Qed.
+
+  Theorem UrlParse_wf : forall b ref u, wf b -> UrlParse b ref = PUrl u -> wf u.
+  Proof.
+    intros b ref u Hb. unfold Api.UrlParse.
+    destruct (BP ref (Some b) None None) as [u'| | | |] eqn:E; cbn [to_pres]; try discriminate.
+    intros H. injection H as <-. apply (BP_parse_wf ref (Some b)); [|exact E].
+    intros b' Hb'. injection Hb' as <-. exact Hb.
+  Qed.
+
+  Theorem ParseRef_wf : forall rawUrl ref u, ParseRef rawUrl ref = PUrl u -> wf u.
+  Proof.
+    intros rawUrl ref u. unfold Api.ParseRef. destruct rawUrl as [|x r]; [apply Parse_wf|].
+    destruct (Api.Parse idna_raw c (x :: r)) as [b|e| | |] eqn:E; try discriminate.
+    apply UrlParse_wf. apply (Parse_wf (x :: r)). exact E.
+  Qed.
+
+  (* a setter's parser call: it comes back with a record, and the record is well formed *)
+  Lemma after_BP s u ov :
+    init_ok true (Some ov) u ->
+    exists u', after (BP s None (Some u) (Some ov)) = Some u' /\ Fin true (Some ov) u'.
+  Proof.
+    intros Hi. destruct (BP_Post idna_raw c true s None (Some u) (Some ov)) as [HP HF].
+    - discriminate.
+    - exact Hi.
+    - destruct (BP s None (Some u) (Some ov)) as [u'|u' e|u'| |]; cbn in HP; cbn [after].
+      + eauto.
+      + eauto.
+      + destruct HP. eauto.
+      + contradiction.
+      + congruence.
+  Qed.
+
+  Lemma after_BP_wf s u ov :
+    init_ok true (Some ov) u -> exists u', after (BP s None (Some u) (Some ov)) = Some u' /\ wf u'.
+  Proof. intros Hi. destruct (after_BP s u ov Hi) as (u' & E & Hw & _). eauto. Qed.
+
+  Theorem SetProtocol_wf : forall u s, wf u -> exists u', SetProtocol idna_raw c u s = Some u' /\ wf u'.
+  Proof. intros u s Hw. unfold SetProtocol. apply after_BP_wf. cbn. auto. Qed.
+
+  Theorem SetUsername_wf : forall u s, wf u -> exists u', SetUsername c u s = Some u' /\ wf u'.
+  Proof. intros u s Hw. unfold SetUsername. destruct (no_host_or_file u); eauto. Qed.
+
+  Theorem SetPassword_wf : forall u s, wf u -> exists u', SetPassword c u s = Some u' /\ wf u'.
+  Proof. intros u s Hw. unfold SetPassword. destruct (no_host_or_file u); eauto. Qed.
+
+  Theorem SetHost_wf : forall u s, wf u -> exists u', SetHost idna_raw c u s = Some u' /\ wf u'.
+  Proof.
+    intros u s Hw. unfold SetHost. destruct (u_opaque u); [eauto|]. apply after_BP_wf. cbn. auto.
+  Qed.
+
+  Theorem SetHostname_wf : forall u s, wf u -> exists u', SetHostname idna_raw c u s = Some u' /\ wf u'.
+  Proof.
+    intros u s Hw. unfold SetHostname. destruct (u_opaque u); [eauto|]. apply after_BP_wf. cbn. auto.
+  Qed.
+
+  Theorem SetPort_wf : forall u s, wf u -> exists u', SetPort idna_raw c u s = Some u' /\ wf u'.
+  Proof.
+    intros u s Hw. unfold SetPort. destruct (no_host_or_file u); [eauto|].
+    destruct s as [|x s]; [eauto|]. apply after_BP_wf. cbn. auto.
+  Qed.
+
+  Theorem SetPathname_wf : forall u s, wf u -> exists u', SetPathname idna_raw c u s = Some u' /\ wf u'.
+  Proof.
+    intros u s Hw. unfold SetPathname. destruct (u_opaque u) eqn:Eo; [eauto|]. apply after_BP_wf.
+    cbn. repeat split; auto. unfold wf. cbn. discriminate.
+  Qed.
+
+  Lemma strip_opaque_wf u : wf u -> exists u', strip_opaque u = Some u' /\ wf u'.
+  Proof.
+    intros Hw. unfold strip_opaque. destruct (u_opaque u) eqn:Eo; [|eauto].
+    destruct (u_path u) as [|x rest] eqn:Ep; [exfalso; apply (Hw Eo Ep)|].
+    eexists; split; [reflexivity|]. unfold wf. cbn. discriminate.
+  Qed.
+
+  Theorem SetSearch_wf : forall u s, wf u -> exists u', SetSearch idna_raw c u s = Some u' /\ wf u'.
+  Proof.
+    intros u s Hw. unfold SetSearch. destruct s as [|x s].
+    - cbv zeta.
+      assert (Hw1 : wf (match u_sp (set_query u None) with
+                        | Some _ => set_sp (set_query u None) (Some [])
+                        | None => set_query u None end)).
+      { destruct (u_sp (set_query u None)); exact Hw. }
+      destruct (negb _); [apply strip_opaque_wf; exact Hw1 | eauto].
+    - cbv zeta.
+      assert (Hi : init_ok true (Some QuerySt)
+                (match u_query u with None => set_query u (Some []) | Some _ => u end)).
+      { cbn. destruct (u_query u) eqn:Eq; repeat split; auto; cbn; congruence. }
+      destruct (after_BP (trim_prefix1 63 (x :: s)) _ QuerySt Hi) as (u' & E & Hw' & Hq').
+      rewrite E. destruct (u_query u') as [q|] eqn:Eq.
+      + eexists; split; [reflexivity|]. exact Hw'.
+      + exfalso. apply Hq'; reflexivity.
+  Qed.
+
+  Theorem SetHash_wf : forall u s, wf u -> exists u', SetHash idna_raw c u s = Some u' /\ wf u'.
+  Proof.
+    intros u s Hw. unfold SetHash. destruct s as [|x s].
+    - cbv zeta. destruct (negb _); [apply strip_opaque_wf; exact Hw | eauto].
+    - cbv zeta. apply after_BP_wf. cbn. auto.
+  Qed.
+
+  (* all nine setters at once *)
+  Theorem setter_wf : forall u s, wf u ->
+    (exists u', SetProtocol idna_raw c u s = Some u' /\ wf u') /\
+    (exists u', SetUsername c u s = Some u' /\ wf u') /\
+    (exists u', SetPassword c u s = Some u' /\ wf u') /\
+    (exists u', SetHost idna_raw c u s = Some u' /\ wf u') /\
+    (exists u', SetHostname idna_raw c u s = Some u' /\ wf u') /\
+    (exists u', SetPort idna_raw c u s = Some u' /\ wf u') /\
+    (exists u', SetPathname idna_raw c u s = Some u' /\ wf u') /\
+    (exists u', SetSearch idna_raw c u s = Some u' /\ wf u') /\
+    (exists u', SetHash idna_raw c u s = Some u' /\ wf u').
+  Proof.
+    intros u s Hw. repeat split;
+      auto using SetProtocol_wf, SetUsername_wf, SetPassword_wf, SetHost_wf, SetHostname_wf, SetPort_wf,
+        SetPathname_wf, SetSearch_wf, SetHash_wf.
+  Qed.
+End ApiTotal.
+
+(* P4 *)
+Theorem getters_total : forall u b, wf u -> Href u b <> None /\ Pathname u <> None.
+Proof.
+  intros u b Hw.
+  assert (Hp : Pathname u <> None).
+  { unfold Pathname, path_string. destruct (u_opaque u) eqn:Eo; [|discriminate].
+    destruct (u_path u) eqn:Ep; [exfalso; apply (Hw Eo Ep) | cbn; discriminate]. }
+  split; [|exact Hp]. unfold Href. destruct (Pathname u); [discriminate | congruence].
+Qed.
+
+(* wf is the weakest predicate with P4 *)
+Theorem wf_weakest : forall u, wf u <-> Pathname u <> None.
+Proof.
+  intros u. split; [intros Hw; apply (getters_total u false Hw)|].
+  unfold Pathname, path_string, wf. intros H Eo Ep. rewrite Eo, Ep in H. apply H. reflexivity.
+Qed.
+
+Print Assumptions BasicParser_never_out_of_fuel.
+Print Assumptions Parse_total.
+Print Assumptions UrlParse_total.
+Print Assumptions ParseRef_total.
+Print Assumptions Parse_wf.
+Print Assumptions UrlParse_wf.
+Print Assumptions ParseRef_wf.
+Print Assumptions setter_wf.
+Print Assumptions getters_total.
+Print Assumptions wf_weakest.
+
+(* ------------------------------------------------------------------------------------------ *)
+(* 5. Concrete instances: the premises are satisfiable and cannot be dropped                   *)
+(* ------------------------------------------------------------------------------------------ *)
+From Verif Require Import Gen.Options.
+From Coq Require Import String.
+Local Open Scope string_scope.
+
+Definition np_idna (s : str) : str * bool := (s, false).
+
+(* a well-formed opaque URL produced by Parse; every getter and the "clearing" setters work on it *)
+Example ex_wf_opaque :
+  exists u, Parse np_idna default_cfg (bs "mailto:x  ?q#f") = PUrl u /\ u_opaque u = true /\ wf u /\
+    Href u false = Some (bs "mailto:x  ?q#f") /\
+    exists u1 u2, SetSearch np_idna default_cfg u [] = Some u1 /\ SetHash np_idna default_cfg u1 [] = Some u2 /\
+      Href u2 false = Some (bs "mailto:x").
+Proof.
+  eexists. split; [vm_compute; reflexivity|]. split; [reflexivity|]. split; [unfold wf; cbn; discriminate|].
+  split; [vm_compute; reflexivity|]. eexists. eexists. split; [vm_compute; reflexivity|].
+  split; vm_compute; reflexivity.
+Qed.
+
+(* UrlParse_wf needs wf of the base: resolving "#x" against an opaque base without segment returns a URL
+   on which Href panics (such a base is never produced by the library itself, by Parse_wf / setter_wf) *)
+Definition np_bad_base : url := set_path (set_scheme (empty_url []) (bs "a")) [] true.
+Example UrlParse_wf_needs_wf_base :
+  ~ wf np_bad_base /\
+  exists u, UrlParse np_idna default_cfg np_bad_base (bs "#x") = PUrl u /\ Href u false = None.
+Proof.
+  split.
+  - intros H. apply H; reflexivity.
+  - eexists. split; vm_compute; reflexivity.
+Qed.
+
+(* the invariant is not vacuous: from states the API never starts in, the machine does panic *)
+Example panic_from_Relative_without_base :
+  BasicParser np_idna default_cfg (bs "x") None (Some (empty_url [])) (Some Relative) = RPanic.
+Proof. vm_compute. reflexivity. Qed.
+
+Example panic_from_QuerySt_with_nil_query :
+  run np_idna default_cfg (decode (bs "#")) None None 100
+      (mk QuerySt (-1) false [] false false false (empty_url [])) = RPanic.
+Proof. vm_compute. reflexivity. Qed.
